@@ -180,7 +180,27 @@ def content_type_witnesses(rep):
                        "replayer(not solver-decided)", "holds", time.time() - t0, queries=len(scs))
 
 
+def copy_source_witnesses(rep):
+    t0 = time.time()
+    out = replay.call_fn("copy_source_roundtrip")
+    if "evaluations" not in out:
+        rep.fail_inconclusive("copy source round trip witnesses failed: %s" % out)
+        return
+    rep.traces_validated += out["evaluations"]
+    if out["bad"]:
+        res = rep.violation("copy_source_roundtrip", "parse(format_to_string(x)) != x: %s" % out["bad"][0], rep.save_cex("copy_source_roundtrip", out["bad"]), confirmed=True)
+        rep.obligation("copy source round trip witnesses", "replayer", res, time.time() - t0)
+    else:
+        rep.obligation("witnesses: %d copy sources (keys of 1-3 units over a / %% ? = space + & # ~ ; %%41 and non-ASCII characters, three version ids): "
+                       "parse(format_to_string(x)) names the same bucket, key and version" % out["evaluations"], "replayer(not solver-decided)", "holds",
+                       time.time() - t0, queries=out["evaluations"])
+
+
 def run(rep, tier):
+    try:
+        copy_source_witnesses(rep)
+    except Exception as e:      # noqa: BLE001
+        rep.fail_inconclusive("copy source witnesses: %r" % (e,))
     try:
         content_type_witnesses(rep)
     except Exception as e:      # noqa: BLE001
